@@ -185,3 +185,108 @@ def corpus():
         return [l.strip() for l in open(p) if l.strip() and not l.startswith("#")]
     except OSError:
         return []
+
+
+def accept_traces(ctx, cases, impl):
+    """feed the protocol events of every real run to the extracted acceptor of
+    coq/Kernel.v; returns (number accepted, list of (case, diag))."""
+    labs, idx = [], []
+    for i, (c, l) in enumerate(zip(cases, impl)):
+        tr = core.parse_trace(l) if l else None
+        if tr is None:
+            continue
+        nk = int(c.split()[2])
+        lab, pos = to_labels(tr, max(1, min(nk, 8)))
+        labs.append(" ".join(map(str, lab)))
+        idx.append((i, tr, pos, lab))
+    res = core.model_run("kernel", labs)
+    rejected = []
+    for (i, tr, pos, lab), r in zip(idx, res):
+        v = r.split()
+        if not v or v[0] != "-1":
+            k = int(v[0]) if v and v[0].lstrip("-").isdigit() else -1
+            q = lab[1 + 4 * k:5 + 4 * k] if k >= 0 else []
+            rejected.append((cases[i], "event %s (label %s) is not enabled in the protocol machine; state summary %s"
+                             % (tr[pos[k]] if 0 <= k < len(pos) else "?", q, " ".join(v[1:]))))
+    return len(labs) - len(rejected), rejected
+
+
+def run(ctx):
+    ctx.trusted = TRUSTED
+    core.coq_property(ctx, "Properties_C01.v", THEOREMS)
+    exe = build(ctx)
+    if exe:
+        cases = corpus() + gen_cases(ctx, ctx.tier)
+        t0 = __import__("time").time()
+        impl = core.run_sharded([exe], cases, timeout=900)
+        nmon = 0
+        events = 0
+        for c, l in zip(cases, impl):
+            tr = core.parse_trace(l) if l else None
+            events += len(tr or [])
+            why = monitor(c, tr, l)
+            if why:
+                nmon += 1
+                core.report_violation(ctx, "kernel", c, why, l)
+        nacc, rejected = accept_traces(ctx, cases, impl)
+        for (c, why) in rejected[:3]:
+            ctx.failures.append({"kind": "correspondence", "label": "kernel-acceptor", "case": c, "detail": why})
+        ctx.oblige("correspondence:kernel protocol machine accepts the real runtime's event traces (%d runs)" % len(cases),
+                   not rejected, "%d of %d traces rejected" % (len(rejected), len(cases)))
+        ctx.stats["kernel"] = {"cases": len(cases), "trace_events": events, "accepted": nacc,
+                               "rejected": len(rejected), "monitor_violations": nmon,
+                               "wall_s": round(__import__("time").time() - t0, 2)}
+        ctx.samples.append({"harness": "kernel", "case": cases[len(cases) // 2][:400],
+                            "impl_trace_head": (impl[len(cases) // 2] or "")[:300]})
+        ctx.coverage.update({"traces_validated_against_impl": nacc, "evaluations": len(cases),
+                             "distinct_nontrivial": len(set(cases)),
+                             "rule": "case = (kernel thread count, one op list per fiber over yield / mutex / semaphore / "
+                                     "condition wait+signal+broadcast / create+join / create+detach, schedule of kernel threads); "
+                                     "every case has >= 1 fiber besides the main fiber; distinct by construction"})
+        if ctx.failures and not ctx.violations:
+            search(ctx, exe)
+    core.finish(ctx, extra_assumptions=ASSUME)
+
+
+def search(ctx, exe):
+    c2 = core.Ctx(ctx.pid, "thorough", ctx.seed + 1000)
+    try:
+        cases = gen_cases(c2, "thorough")[:6000]
+    finally:
+        c2.cleanup()
+    impl = core.run_sharded([exe], cases, timeout=900)
+    for c, line in zip(cases, impl):
+        why = monitor(c, core.parse_trace(line) if line else None, line)
+        if why:
+            core.report_violation(ctx, "kernel", c, why, line)
+            if len(ctx.violations) >= 3:
+                break
+
+
+def replay(ctx, payload):
+    exe = build(ctx)
+    c = payload.get("case")
+    if not exe or not c:
+        print("nothing to replay (no concrete case in this file)")
+        return 2
+    impl = core.run_sharded([exe], [c])[0]
+    why = monitor(c, core.parse_trace(impl), impl)
+    nacc, rej = accept_traces(ctx, [c], [impl])
+    print("case:  %s\nimpl trace: %s ...\nmonitor: %s\nacceptor: %s" %
+          (c[:300], (impl or "")[:300], why or "ok", rej[0][1] if rej else "accepted"))
+    return 1 if (why or rej) else 0
+
+
+TRUSTED = [
+    "Coq 8.16.1 kernel + vm_compute (no native_compute)",
+    "Print Assumptions of each theorem (recorded under print_assumptions)",
+    "extraction: ExtrOcamlBasic only; OCaml driver",
+    "rt/rt.c baton scheduler + rt/t2.c (whole real runtime: real context switch, run queues, managers; kernel threads under "
+    "the baton; epoll never blocks and reports nothing); guarded protocol-event hooks in /repo",
+    "tools/vf/props/C01.py:to_labels (decoding of trace events into labels) and the inference of the end of do_maintenance (Kernel.kstep_auto)",
+    "protocol machine coq/Kernel.v written by hand; tie = trace inclusion: every event of every real run must be enabled in the machine",
+]
+ASSUME = ["run queues of all threads abstracted to one bag (stealing only moves entries; C02 deque theorems)",
+          "an entry published in a wait object is obtained by at most one waker (container exactly-once: C13/C15; lock discipline C03/C18)",
+          "waiters published by deferred actions are treated as available from the start of the maintenance after their swap",
+          "fd / sleep waits are not exercised by the T2 programs (they use the same deferred-unlock pattern P3)"]
